@@ -4,64 +4,86 @@ Every expected value is computed in this file from the property statement (expli
 pair counting, numpy solves on the sub-block of V written out entry by entry); repo code is only used to BUILD inputs
 (`RDMs(...)`, `ModelWeighted(...)`, and -- where the clause is about masks "produced by pattern bootstrap or by
 from_partials" -- `subsample_pattern` / `from_partials`, whose output is itself checked against a literal spec first).
+The single exception is C13/compare-whole-condition, a metamorphic check that is labelled as such.
 
 "entry-deleted definition": with `keep` = positions that are not missing, x = row[keep], V = (C Sigma C^T)**2
 (element-wise square, C the pair contrast in upper-triangle row-major order, Sigma = I | diag(vector) | matrix) and
 V_k = V[keep][:, keep]:
     cosine x.y/|x||y| ; corr = cosine of centred ; spearman = Pearson of average ranks ; rho-a = 12 sum(rx-m)(ry-m)/(n^3-n)
     kendall = tau-b and tau-a by counting concordant / discordant / tied pairs ; cosine_cov x V_k^-1 y / sqrt(..)(..)
-    corr_cov = cosine_cov of centred ; bures / bures_metric / neg_riem_dist (only defined when the mask removes whole
-    conditions, then: the measure of the sub-RDMs).
+    corr_cov = cosine_cov of centred ; bures / bures_metric (only defined when the mask removes whole conditions, then:
+    the measure of the sub-RDMs, fidelity = nuclear norm of A^1/2 B^1/2 of the centred second moments).
 
 oracles (clause of the property statement -> oracle)
 * C13/compare-same-mask     "when the compared RDMs lack exactly the same entries, every comparison measure returns what it
                             returns on the RDMs with those entries deleted (whitened: matching rows and columns of V
-                            deleted)": explicit common masks, 8 vector measures, sigma_k None / constant vector /
-                            non-constant vector / matrix, with and without ties, several RDMs per stack.
+                            deleted)": ALL explicit common masks up to 3 missing pairs, 8 vector measures, sigma_k None /
+                            constant vector / non-constant vector / matrix, with and without ties, 2x3 RDMs; arguments
+                            unchanged.
 * C13/compare-generated     same clause on masks produced by `subsample_pattern` (pattern bootstrap) and `from_partials`
-                            (whole conditions missing; here also bures, bures_metric, neg_riem_dist); the produced vectors
-                            themselves are compared with a literal spec of the two operations (mask positions!).
-* C13/compare-differing     "RDMs whose missing entries sit at different positions are rejected with an error rather than
+                            (whole conditions missing; here also bures, bures_metric); the produced vectors themselves
+                            are compared with a literal spec of the two operations (mask positions!).
+* C13/compare-whole-condition  METAMORPHIC reading of the same clause: if the common mask removes whole conditions, the
+                            entry-deleted RDMs are RDMs again, so compare(NaN-bearing, sigma_k) must equal compare(sub-RDMs,
+                            sigma_k restricted); all 11 methods (the only value check of neg_riem_dist, whose value is a
+                            Nelder-Mead minimum) and all four sigma_k kinds -- the only NaN-path check with a
+                            non-constant VECTOR sigma_k that does not run into the C03 defect; plus invariance under
+                            scaling of the vector.
+* C13/from-partials         literal placement spec of the mask producer (several RDMs objects, descending / mixed
+                            condition order, all_patterns given / permuted / with extra names / None).
+* C13/compare-differing, C13/compare-differing-generated
+                            "RDMs whose missing entries sit at different positions are rejected with an error rather than
                             compared entry-shifted": differing masks between the stacks, within one stack, strict subset
                             masks in both argument orders, masks from different bootstrap samples / different partial
-                            condition sets; all 11 methods; ANY raised exception counts as rejection, a returned array is
-                            the failure.
+                            condition sets / one side complete; all 11 methods; ANY raised exception counts as rejection,
+                            a returned array is the failure.
 * C13/pool                  "pooled ... RDM": `util.inference_util.pool_rdm` and `util.pooling.pool_rdm` (the copy used by
                             the fitters, with sigma_k) on common-mask stacks = pooling definition on the deleted vectors,
-                            NaN exactly at the missing positions.
+                            NaN exactly at the missing positions; input unchanged.
 * C13/noise-ceiling         "noise-ceiling": `boot_noise_ceiling` and `cv_noise_ceiling` (with a pattern bootstrap sample as
                             test patterns) on common-mask stacks = leave-one-out / pooled definition on deleted vectors.
-* C13/fit-regress           "regression fit": `fit_regress` / `fit_regress_nn` (cosine, corr, cosine_cov, corr_cov; sigma_k
-                            None / matrix; ridge; pattern_idx route) on NaN-bearing model+data = (non-negative) GLS
-                            solution on the deleted vectors with the V sub-block; model-vs-data masks that differ must
-                            raise.
+* C13/fit-regress, C13/fit-regress-differing
+                            "regression fit": `fit_regress` / `fit_regress_nn` (cosine, corr, cosine_cov, corr_cov; sigma_k
+                            None / matrix; ridge; pattern_idx route) on NaN-bearing model+data = (non-negative, via
+                            scipy nnls on the Cholesky-whitened problem) GLS solution on the deleted vectors with the V
+                            sub-block; model-vs-data masks that differ must raise.
 * C13/mean                  "averaging RDMs ignores missing entries per pair, honours per-RDM or per-entry weights and yields
                             NaN only where no RDM has a value": `RDMs.mean()` with no weights / per-entry array (NaN or
-                            finite at the missing entries) / rdm-descriptor name holding one weight per RDM / descriptor
-                            name holding a per-entry array; caller's weights, descriptors and the RDMs unchanged.
+                            finite at the missing entries) / per-RDM weights tiled to an array / rdm-descriptor name holding
+                            one weight per RDM / descriptor name holding a per-entry array; differing masks per RDM incl.
+                            entries missing everywhere; caller's weights, the stored descriptor and the RDMs unchanged.
 * C13/rescale               "rescaling partial RDMs multiplies each RDM by one positive constant, keeps its NaN pattern":
                             arbitrary (non-proportional) partial stacks, 3 methods, default and small threshold;
                             'rescalingWeights' descriptor present (one row per RDM, NaN exactly at missing entries,
-                            positive elsewhere) and usable as `mean(weights='rescalingWeights')`; input unchanged.
+                            positive elsewhere) and usable as `mean(weights='rescalingWeights')`; other descriptors
+                            carried over; input unchanged and not given the new descriptor.
 * C13/rescale-proportional  "... and brings mutually proportional partial RDMs to a common scale": chains of partial
-                            overlaps with scale ratios up to 100 per link, random condition covers, arbitrary entry masks
+                            overlaps with scale ratios up to 1000 per link, random condition covers, arbitrary entry masks
                             (connected overlap graph), threshold 1e-20 -> shared entries agree to 1e-6 and
                             constant x true scale is the same for all RDMs.
+* C13/rescale-default-threshold  the same stacks with the DEFAULT threshold, coarse tolerance 25 % (the default stopping rule
+                            only promises approximate convergence; only gross misalignment is flagged).
+Every call of rescale runs under a 20 s alarm (the loop has no iteration bound): a run-away call is a reported failure.
 
-input_class labels (pure functions of the case, never of the outcome).  Classes that FAIL on the unchanged tree
-(see C13_findings.md): 'masks-differ,equal-counts', 'within-stack-masks-differ,equal-widths' (compare and fit_regress:
-only NaN COUNTS are compared), 'weights-descriptor-per-rdm' (RDMs.mean: (n_rdm,) weights not broadcast),
-'weights-array-finite-at-missing' (RDMs.mean: weights of missing entries stay in the denominator),
-'sigma_k-vector-nonconstant' (cosine_cov / corr_cov with a vector sigma_k is not the V(diag(vector)) definition, with or
-without NaNs -- this is the C03 defect seen from C13).
+input_class labels are pure functions of the case, never of the outcome.  Classes that FAIL on the unchanged tree
+(details, concrete inputs and repairs in C13_findings.md):
+  compare / fit_regress   'masks-differ,equal-counts', 'within-stack-masks-differ,equal-widths'   (only NaN COUNTS compared)
+  RDMs.mean               'weights-descriptor-per-rdm'   ((n_rdm,) weights not broadcast -> ValueError)
+                          'weights-array-finite-at-missing'   (weights of missing entries stay in the denominator)
+  compare-same-mask       'sigma_k-vector-nonconstant'   (vector sigma_k is not the V(diag(vector)) definition, with or
+                          without NaNs -- the C03 defect seen from C13)
+  rescale-default-threshold  'evidence,chain,non-monotone-scales'   (default rescale() stops up to a factor 1000 away
+                          from the common scale)
 
 NOT covered by this tier: stacks larger than 6 conditions / 4 RDMs (8 for chains); value of bures / neg_riem_dist on masks
 that do not remove whole conditions (the entry-deleted vector is not an RDM; the functions raise or are undefined);
 pool_rdm on stacks whose RDMs have different masks (the statement does not define the value); rescale on RDMs that are
 not connected by shared entries or contain all-NaN / all-zero rows; the value rescale converges to for non-proportional
-RDMs; fit_optimize / fit_interpolate (iterative optimisers; they go through compare()); eval_* drivers (C04/C05);
-`RDMs.mean` object-level descriptors (returned as a set of tuples when a descriptor name is passed -- noted in the
-findings file, not part of the statement).  The all-inputs alignment contract of the two parsers is engine A.
+RDMs; method='evidence' with threshold 1e-20 on widely different non-monotone scales (> 1e5 iterations: run time);
+fit_optimize / fit_interpolate (iterative optimisers; they go through compare()); eval_* drivers (C04/C05);
+ndarray (non-RDMs) arguments of compare; `RDMs.mean` object-level descriptors (returned as a set of tuples when a
+descriptor name is passed -- noted in the findings file, not part of the statement).  The all-inputs alignment contract
+of the two parsers is engine A.
 """
 import itertools
 import warnings
@@ -73,6 +95,7 @@ from vf.rt.harness import oracle, Bounded, close, replay_file
 NAN = float('nan')
 VEC_METHODS = ['cosine', 'corr', 'spearman', 'kendall', 'tau-a', 'rho-a', 'cosine_cov', 'corr_cov']
 MAT_METHODS = ['bures', 'bures_metric', 'neg_riem_dist']
+SPEC_MAT_METHODS = ['bures', 'bures_metric']     # neg_riem_dist is a Nelder-Mead minimum: only in the metamorphic oracle
 ALL_METHODS = VEC_METHODS + MAT_METHODS
 
 
@@ -153,32 +176,6 @@ def _centred_gram(v, n):
     return -0.5 * H @ D @ H
 
 
-def _spec_riem(v1, v2, n):
-    """-min_theta sqrt(sum log^2 eig(e^t0 G1 + e^t1 PP^T, G2)), G = second moment relative to condition 0"""
-    from scipy import linalg
-    from scipy.optimize import minimize
-
-    def g(v):
-        D = _vec_to_mat(v, n)
-        G = np.zeros((n - 1, n - 1))
-        for i in range(n - 1):
-            for j in range(n - 1):
-                G[i, j] = (D[0, i + 1] + D[0, j + 1] - D[i + 1, j + 1]) / 2
-        return G
-    G1, G2 = g(v1), g(v2)
-    P = np.hstack([-np.ones((n - 1, 1)), np.eye(n - 1)])
-    S = P @ P.T
-
-    def fun(t):
-        return np.sqrt((np.log(linalg.eigvalsh(np.exp(t[0]) * G1 + np.exp(t[1]) * S, G2)) ** 2).sum())
-    best = None
-    for start in ((0.0, 0.0),):
-        r = minimize(fun, start, method='Nelder-Mead', options=dict(xatol=1e-8, fatol=1e-10, maxiter=4000, maxfev=8000))
-        if best is None or r.fun < best:
-            best = r.fun
-    return -best
-
-
 def _spec_sim(method, x, y, Vk=None, n_sub=None):
     """similarity of two entry-deleted vectors by the literal definition"""
     x = np.asarray(x, dtype=float)
@@ -214,18 +211,14 @@ def _spec_sim(method, x, y, Vk=None, n_sub=None):
         if method == 'bures':
             return fid / np.sqrt(np.trace(A) * np.trace(B))
         return float(np.trace(A) + np.trace(B) - 2 * fid)
-    if method == 'neg_riem_dist':
-        return _spec_riem(x, y, n_sub)
     raise ValueError(method)
 
 
 def _tol(method, sigma_kind='none'):
-    if method == 'neg_riem_dist':
-        return 2e-4          # two Nelder-Mead runs
     if method in ('bures', 'bures_metric'):
         return 1e-6          # matrix square roots of rank-deficient Gram matrices
     if method in ('cosine_cov', 'corr_cov') and sigma_kind == 'matrix':
-        return 1e-5          # the real code solves V x = b by conjugate gradients (rtol 1e-5)
+        return 1e-4          # the real code solves V x = b by conjugate gradients with rtol 1e-5 (seen: 8e-6)
     return 1e-9
 
 
@@ -415,6 +408,83 @@ def orc_compare_generated(case):
     if not close(got, want, _tol(method, case.get('sigma', 'none'))):
         return (f'{method} on a common {case["kind"]} mask (missing {np.where(~keep)[0].tolist()}): got {_fmt(got)}, '
                 f'entry-deleted definition gives {_fmt(want)}')
+    return None
+
+
+@oracle('C13/compare-whole-condition')
+def orc_compare_whole_condition(case):
+    """METAMORPHIC form of the statement ("returns what it returns on the RDMs with those entries deleted"): when the common
+    mask removes whole conditions the entry-deleted RDMs are RDMs again, so both sides can be given to compare() itself
+    (sigma_k restricted to the remaining conditions).  This is the only check of the NaN path with a non-constant VECTOR
+    sigma_k that is independent of the C03 defect (vector sigma_k != diag(vector) definition)."""
+    from rsatoolbox.rdm import RDMs, compare
+    from rsatoolbox.rdm.combine import from_partials
+    rs = np.random.RandomState(case['seed'])
+    n_all, sub = case['n_all'], list(case['sub'])
+    method = case['method']
+    names = ['c%d' % i for i in range(n_all)]
+    va = _sq_euclid_vectors(rs, case['n1'], len(sub)) if method in MAT_METHODS else rs.rand(case['n1'], _n_pairs(len(sub))) + 0.1
+    vb = _sq_euclid_vectors(rs, case['n2'], len(sub)) if method in MAT_METHODS else rs.rand(case['n2'], _n_pairs(len(sub))) + 0.1
+    a = RDMs(va.copy(), pattern_descriptors={'conds': [names[i] for i in sub]})
+    b = RDMs(vb.copy(), pattern_descriptors={'conds': [names[i] for i in sub]})
+    # the NaN-bearing versions are built from the literal placement, not by from_partials
+    A = RDMs(_spec_partials(va, sub, n_all))
+    B = RDMs(_spec_partials(vb, sub, n_all))
+    kind = case.get('sigma', 'none')
+    arg, _ = _sigma(kind, n_all, rs)
+    kw_full, kw_sub = {}, {}
+    if method.endswith('_cov') and arg is not None:
+        idx = np.array(sub)
+        # condition i of the sub-RDM is condition sub[i] of the full one
+        kw_full = dict(sigma_k=arg)
+        kw_sub = dict(sigma_k=arg[idx] if arg.ndim == 1 else arg[np.ix_(idx, idx)])
+    with warnings.catch_warnings():
+        warnings.simplefilter('ignore')
+        got = np.asarray(compare(A, B, method=method, **kw_full), dtype=float)
+        want = np.asarray(compare(a, b, method=method, **kw_sub), dtype=float)
+        if kw_full and arg.ndim == 1:
+            scaled = np.asarray(compare(A, B, method=method, sigma_k=3.7 * arg), dtype=float)
+            if not close(scaled, got, 1e-9):
+                return f'{method}: multiplying the vector sigma_k by 3.7 changed the result from {_fmt(got)} to {_fmt(scaled)}'
+    if sub != sorted(sub):
+        return 'case error: sub must be ascending here'
+    if not close(got, want, max(_tol(method, kind), 1e-9)):
+        return (f'{method}(sigma_k={kind}) on RDMs lacking every pair of conditions {sorted(set(range(n_all)) - set(sub))}: {_fmt(got)}, '
+                f'on the RDMs of the remaining conditions: {_fmt(want)}')
+    return None
+
+
+@oracle('C13/from-partials')
+def orc_from_partials(case):
+    """literal spec of the mask producer: every partial RDM lands on the pairs of ITS conditions, everything else is missing"""
+    from rsatoolbox.rdm import RDMs
+    from rsatoolbox.rdm.combine import from_partials
+    rs = np.random.RandomState(case['seed'])
+    parts, rows = [], []
+    given = case.get('all_patterns')
+    if given is None:
+        order = []
+        for names in case['parts']:
+            for nm in names:
+                if nm not in order:
+                    order.append(nm)
+    else:
+        order = list(given)
+    for names, n_rdm in zip(case['parts'], case['n_rdms']):
+        v = rs.rand(n_rdm, _n_pairs(len(names))) + 0.1
+        parts.append(RDMs(v.copy(), pattern_descriptors={'conds': list(names)}))
+        rows.append(_spec_partials(v, [order.index(nm) for nm in names], len(order)))
+    want = np.concatenate(rows, axis=0)
+    with warnings.catch_warnings():
+        warnings.simplefilter('ignore')
+        res = from_partials(parts) if given is None else from_partials(parts, all_patterns=list(given))
+    got = np.asarray(res.dissimilarities, dtype=float)
+    if got.shape != want.shape:
+        return f'from_partials gives shape {got.shape}, expected {want.shape}'
+    if not close(got, want, 1e-12):
+        return f'from_partials({case["parts"]}, all_patterns={given}): {_fmt(got)}, literal placement gives {_fmt(want)}'
+    if list(res.pattern_descriptors.get('conds', [])) != order:
+        return f'pattern descriptor of the result is {list(res.pattern_descriptors.get("conds", []))}, expected {order}'
     return None
 
 
@@ -801,6 +871,33 @@ def orc_mean(case):
 # =====================================================================================================
 RESCALE_METHODS = ['evidence', 'setsize', 'simple']
 
+class _TimeLimit:
+    """the rescaling loop has no iteration bound: turn a run-away call into a reported failure instead of a hung tier"""
+
+    def __init__(self, seconds):
+        self.seconds = seconds
+        self.armed = False
+
+    def _fire(self, signum, frame):
+        raise TimeoutError(f'no result within {self.seconds} s')
+
+    def __enter__(self):
+        import signal
+        import threading
+        if threading.current_thread() is threading.main_thread() and hasattr(signal, 'setitimer'):
+            self.old = signal.signal(signal.SIGALRM, self._fire)
+            signal.setitimer(signal.ITIMER_REAL, self.seconds)
+            self.armed = True
+        return self
+
+    def __exit__(self, *exc):
+        if self.armed:
+            import signal
+            signal.setitimer(signal.ITIMER_REAL, 0)
+            signal.signal(signal.SIGALRM, self.old)
+        return False
+
+
 
 def _check_constants(out, orig, what):
     """each row of out = positive constant x row of orig, NaN pattern kept.  returns (message|None, constants)"""
@@ -861,9 +958,12 @@ def orc_rescale(case):
     method = case['method']
     kw = {} if case.get('threshold') is None else dict(threshold=case['threshold'])
     what = f'rescale({method}{", threshold=%g" % case["threshold"] if kw else ""}) of RDMs missing {rows}'
-    with warnings.catch_warnings():
-        warnings.simplefilter('ignore')
-        res = rescale(rdms, method=method, **kw)
+    try:
+        with warnings.catch_warnings(), _TimeLimit(20):
+            warnings.simplefilter('ignore')
+            res = rescale(rdms, method=method, **kw)
+    except TimeoutError as e:
+        return f'{what}: {e}'
     out = np.asarray(res.dissimilarities, dtype=float)
     msg, _ = _check_constants(out, x, what)
     if msg:
@@ -902,15 +1002,11 @@ def _proportional_stack(case, rs):
     from rsatoolbox.rdm.combine import from_partials
     kind = case['kind']
     if kind == 'chain':
-        K, size, share, base = case['K'], case['size'], case['share'], case['base']
+        K, size, share = case['K'], case['size'], case['share']
         step = size - share
         n = step * (K - 1) + size
         subs = [list(range(step * k, step * k + size)) for k in range(K)]
-        scales = [float(base) ** k for k in range(K)]
-        if case.get('order') == 'reversed':
-            scales = scales[::-1]
-        elif case.get('order') == 'shuffled':
-            scales = [scales[i] for i in rs.permutation(K)]
+        scales = [float(x) for x in case['scales']]
     elif kind == 'cover':
         n = case['n_cond']
         subs = [list(s) for s in case['subs']]
@@ -964,10 +1060,15 @@ def orc_rescale_prop(case):
         return 'case error: overlap graph not connected'
     method = case['method']
     thr = case.get('threshold', 1e-20)
-    what = f'rescale({method}, threshold={thr:g}) of {spec.shape[0]} proportional partial RDMs ({case["kind"]}, scales {_fmt(scales)})'
-    with warnings.catch_warnings():
-        warnings.simplefilter('ignore')
-        res = rescale(rdms, method=method, threshold=thr)
+    kw = {} if thr is None else dict(threshold=thr)
+    what = (f'rescale({method}, threshold={"default" if thr is None else "%g" % thr}) of {spec.shape[0]} proportional partial RDMs '
+            f'({case["kind"]}, scales {_fmt(scales)})')
+    try:
+        with warnings.catch_warnings(), _TimeLimit(20):
+            warnings.simplefilter('ignore')
+            res = rescale(rdms, method=method, **kw)
+    except TimeoutError as e:
+        return f'{what}: {e}'
     out = np.asarray(res.dissimilarities, dtype=float)
     msg, consts = _check_constants(out, spec, what)
     if msg:
@@ -988,7 +1089,7 @@ def orc_rescale_prop(case):
     undo = consts * scales
     undo_dev = float(np.max(np.abs(undo / undo[0] - 1)))
     if worst > tol or undo_dev > tol:
-        return (f'{what}: not on a common scale -- shared entries of RDM {where} differ by a factor {1 + worst:.6g}; '
+        return (f'{what}: not on a common scale (tolerance {tol:g}) -- shared entries of RDM {where} differ by a factor {1 + worst:.6g}; '
                 f'constant x true scale relative to RDM 0 = {_fmt(undo / undo[0])} (should all be 1)')
     return None
 
@@ -1012,7 +1113,7 @@ def tier_c(run, thorough):
     bds = []
 
     # ---------------------------------------------------------------- compare, same masks
-    sizes = {4: 3, 5: 3, 6: 2} if thorough else {4: 3, 5: 1}
+    sizes = {4: 3, 5: 3, 6: 3} if thorough else {4: 3, 5: 1}
     bd = Bounded(run, 'C13/compare-same-mask', 'C13/compare/oracle/same-mask-equals-entry-deleted',
                  'ALL common masks with <= k missing pairs for n_cond:k in %s; 8 vector measures; sigma_k None / constant vector / '
                  'non-constant vector / matrix for the whitened ones; 2x3 RDMs, one seeded value set per case (+ tie-heavy '
@@ -1034,7 +1135,7 @@ def tier_c(run, thorough):
     bd = Bounded(run, 'C13/compare-generated', 'C13/compare/oracle/generated-mask-equals-entry-deleted',
                  'pattern bootstrap samples (all multisets of size n from n=4 patterns with >= 3 distinct; seeded ones for n=5,6) and '
                  'from_partials with 1-2 missing conditions at every position (n_all 4..6); 8 vector measures (+ bures, '
-                 'bures_metric, neg_riem_dist on whole-condition masks); sigma_k None / matrix', function='compare')
+                 'bures_metric on whole-condition masks); sigma_k None / matrix', function='compare')
     samples = [(4, list(c)) for c in itertools.combinations_with_replacement(range(4), 4) if len(set(c)) >= 3]
     rs = np.random.RandomState(13)
     for n in ((5, 6) if thorough else (5,)):
@@ -1060,13 +1161,51 @@ def tier_c(run, thorough):
                 variants = [sub] if not thorough else [sub, sub[::-1]]
                 for subv in variants:
                     pi += 1
-                    for method in ALL_METHODS:
-                        if method == 'neg_riem_dist' and not (thorough or pi % 4 == 0):
-                            continue
+                    for method in VEC_METHODS + SPEC_MAT_METHODS:
                         for s in (['none', 'matrix'] if method.endswith('_cov') else ['none']):
                             bd.check(orc_compare_generated, dict(seed=100 + pi, kind='partials', spec=dict(n_all=n_all, sub=subv),
                                                                  n1=2, n2=2, method=method, sigma=s),
                                      'partials-mask', function='from_partials')
+    bd.done()
+    bds.append(bd)
+
+    bd = Bounded(run, 'C13/compare-whole-condition', 'C13/compare/oracle/whole-condition-mask-equals-sub-rdm',
+                 'metamorphic: ALL ways to drop 1-2 whole conditions from n_all=4..%d; 11 methods; sigma_k None / constant vector / '
+                 'non-constant vector / matrix for the whitened ones; 2x2 RDMs' % (6 if thorough else 5), exhaustive=True,
+                 function='compare')
+    wi = 0
+    for n_all in ((4, 5, 6) if thorough else (4, 5)):
+        for n_miss in (1, 2):
+            if n_all - n_miss < 3:
+                continue
+            for miss in itertools.combinations(range(n_all), n_miss):
+                sub = [i for i in range(n_all) if i not in miss]
+                wi += 1
+                for method in ALL_METHODS:
+                    if method == 'neg_riem_dist' and not (thorough or wi % 4 == 0):
+                        continue
+                    for s in (['none', 'vector-constant', 'vector', 'matrix'] if method.endswith('_cov') else ['none']):
+                        bd.check(orc_compare_whole_condition, dict(seed=wi, n_all=n_all, sub=sub, n1=2, n2=2, method=method, sigma=s),
+                                 'whole-condition-mask,sigma_k-' + s, function='_cov_weighting' if method.endswith('_cov') else 'compare')
+    bd.done()
+    bds.append(bd)
+
+    bd = Bounded(run, 'C13/from-partials', 'C13/from_partials/oracle/literal-placement',
+                 'lists of 1-3 partial RDMs objects (1-2 RDMs each) over 3-5 named conditions in ascending / descending / mixed order, '
+                 'all_patterns given (incl. extra and permuted names) or None (union in order of appearance)', function='from_partials')
+    fp_cases = [
+        dict(parts=[['b', 'c', 'd']], n_rdms=[2], all_patterns=['a', 'b', 'c', 'd']),
+        dict(parts=[['d', 'c', 'b']], n_rdms=[1], all_patterns=['a', 'b', 'c', 'd']),
+        dict(parts=[['a', 'c', 'd'], ['b', 'c', 'd']], n_rdms=[1, 2], all_patterns=['a', 'b', 'c', 'd']),
+        dict(parts=[['a', 'c', 'd'], ['b', 'c', 'd']], n_rdms=[1, 2], all_patterns=['d', 'a', 'c', 'b', 'e']),
+        dict(parts=[['a', 'b', 'c'], ['c', 'd', 'e'], ['e', 'a', 'b', 'd']], n_rdms=[1, 1, 1], all_patterns=None),
+        dict(parts=[['c', 'a', 'b'], ['d', 'b', 'a']], n_rdms=[2, 1], all_patterns=None),
+        dict(parts=[['a', 'b', 'c', 'd']], n_rdms=[2], all_patterns=None),
+        dict(parts=[['b', 'd', 'a', 'c'], ['a', 'c']], n_rdms=[1, 1], all_patterns=['a', 'b', 'c', 'd']),
+    ]
+    for fi_, c in enumerate(fp_cases):
+        bd.check(orc_from_partials, dict(c, seed=fi_), 'all_patterns-given' if c['all_patterns'] else 'all_patterns-none',
+                 function='from_partials')
     bd.done()
     bds.append(bd)
 
@@ -1186,9 +1325,9 @@ def tier_c(run, thorough):
     # ---------------------------------------------------------------- pooling
     bd = Bounded(run, 'C13/pool', 'C13/pool_rdm/oracle/common-mask-equals-entry-deleted',
                  'both copies of pool_rdm (util.inference_util: 11 methods; util.pooling: 10 methods, sigma_k None / matrix for the '
-                 'whitened ones); ALL common masks with <= %s missing pairs for n_cond=4 (and <= 1 for n_cond=5); 3 RDMs; '
-                 'tie-heavy values for the rank methods' % (3 if thorough else 2), exhaustive=True, function='pool_rdm')
-    for n, kmax in ((4, 3 if thorough else 2), (5, 1)):
+                 'whitened ones); ALL common masks with <= %s missing pairs for n_cond=4 (and <= %s for n_cond=5); 3 RDMs; '
+                 'tie-heavy values for the rank methods' % ((3, 3) if thorough else (2, 1)), exhaustive=True, function='pool_rdm')
+    for n, kmax in ((4, 3 if thorough else 2), (5, 3 if thorough else 1)):
         for mi, missing in enumerate(_masks_upto(_n_pairs(n), kmax)):
             cls = 'no-missing' if not missing else 'common-mask'
             for method in POOL_METHODS:
@@ -1208,10 +1347,10 @@ def tier_c(run, thorough):
     # ---------------------------------------------------------------- noise ceilings
     nc_methods = VEC_METHODS
     bd = Bounded(run, 'C13/noise-ceiling', 'C13/noise_ceiling/oracle/common-mask-equals-entry-deleted',
-                 'boot_noise_ceiling: ALL common masks with <= 2 missing pairs, n_cond=4 (<= 1 for n_cond=5), 3-4 RDMs; '
+                 'boot_noise_ceiling: ALL common masks with <= 2 missing pairs, n_cond=4 (<= %d for n_cond=5), 3-4 RDMs; '
                  'cv_noise_ceiling: one fold, test patterns = bootstrap samples of 5 patterns, 4 RDMs split 2/2 and 3/1; '
-                 '8 methods', function='boot_noise_ceiling')
-    for n, kmax in ((4, 2), (5, 1)):
+                 '8 methods' % (2 if thorough else 1), function='boot_noise_ceiling')
+    for n, kmax in ((4, 2), (5, 2 if thorough else 1)):
         for mi, missing in enumerate(_masks_upto(_n_pairs(n), kmax)):
             for method in (nc_methods if (thorough or mi % 2 == 0) else ['cosine', 'corr_cov']):
                 bd.check(orc_noise_ceiling, dict(seed=mi, kind='boot', n_cond=n, n_rdm=3 + (mi % 2), missing=missing, method=method),
@@ -1228,9 +1367,9 @@ def tier_c(run, thorough):
     fit_methods = ['cosine', 'corr', 'cosine_cov', 'corr_cov']
     bd = Bounded(run, 'C13/fit-regress', 'C13/fit_regress/oracle/common-mask-equals-entry-deleted',
                  'fit_regress and fit_regress_nn, 4 methods, sigma_k None / matrix, ridge 0 / 0.5; 2 basis RDMs, 3 data RDMs; ALL '
-                 'common masks with <= 2 missing pairs for n_cond=4 (<= 1 for n_cond=5); pattern_idx route with 4 bootstrap samples',
-                 exhaustive=True, function='fit_regress')
-    for n, kmax in ((4, 2), (5, 1)):
+                 'common masks with <= 2 missing pairs for n_cond=4 (<= %d for n_cond=5); pattern_idx route with 4 bootstrap samples'
+                 % (2 if thorough else 1), exhaustive=True, function='fit_regress')
+    for n, kmax in ((4, 2), (5, 2 if thorough else 1)):
         for mi, missing in enumerate(_masks_upto(_n_pairs(n), kmax)):
             for method in fit_methods:
                 for s in (['none', 'matrix'] if method.endswith('_cov') else ['none']):
@@ -1251,8 +1390,9 @@ def tier_c(run, thorough):
     bds.append(bd)
 
     bd = Bounded(run, 'C13/fit-regress-differing', 'C13/fit_regress/oracle/differing-masks-rejected',
-                 'n_cond=4: ALL ordered pairs of different (model mask, data mask) with <= 2 missing pairs; fit_regress / '
-                 'fit_regress_nn; cosine and corr_cov', exhaustive=True, function='_parse_nan_vectors')
+                 'n_cond=4: %s ordered pairs of different (model mask, data mask) with <= 2 missing pairs; fit_regress / '
+                 'fit_regress_nn; cosine and corr_cov' % ('ALL' if thorough else 'every third of the'), exhaustive=thorough,
+                 function='_parse_nan_vectors')
     fi = 0
     for m1 in single:
         for m2 in single:
@@ -1332,26 +1472,25 @@ def tier_c(run, thorough):
         scales = (10.0 ** rs.uniform(-1, 3, size=R)).round(3).tolist()
         for method in RESCALE_METHODS:
             for thr in (None, 1e-14):
-                bd.check(orc_rescale, dict(seed=100 + made, n_cond=n, rows=rows, method=method, threshold=thr, scales=scales,
+                # 'evidence' with a small threshold: compressed scale range, see for_method() below (run time)
+                sc = [round(x ** 0.25, 4) for x in scales] if (method == 'evidence' and thr is not None) else scales
+                bd.check(orc_rescale, dict(seed=100 + made, n_cond=n, rows=rows, method=method, threshold=thr, scales=sc,
                                            zero_entry=bool(made % 4 == 0)), 'partial', function='_rescale')
     bd.done()
     bds.append(bd)
 
     # ---------------------------------------------------------------- rescale, proportional
-    bd = Bounded(run, 'C13/rescale-proportional', 'C13/rescale/oracle/proportional-to-common-scale',
-                 'mutually proportional partial RDMs: chains of K=2..%d partial RDMs (4-5 conditions each, 2-3 shared with the next) '
-                 'with scale ratio 3 / 10 / 100 per link in increasing, reversed and shuffled order; seeded condition covers and '
-                 'arbitrary entry masks (n_cond 5-6, 3-4 RDMs, connected); 3 methods; threshold 1e-20, agreement 1e-6'
-                 % (8 if thorough else 6), function='rescale')
     chains = [(2, 4, 2, 3.0), (3, 4, 2, 10.0), (4, 4, 2, 3.0), (5, 3, 2, 5.0), (6, 4, 2, 3.0), (4, 5, 3, 100.0), (6, 4, 2, 10.0)]
     if thorough:
         chains += [(8, 4, 2, 3.0), (7, 3, 2, 3.0), (5, 5, 2, 100.0), (3, 6, 2, 1000.0)]
-    for ci_, (K, size, share, base) in enumerate(chains):
-        for order in ('increasing', 'reversed', 'shuffled'):
-            for method in RESCALE_METHODS:
-                bd.check(orc_rescale_prop, dict(seed=ci_, kind='chain', K=K, size=size, share=share, base=base, order=order, method=method),
-                         'chain', function='_rescale')
     rs = np.random.RandomState(17)
+    prop_cases = []          # (case without method/threshold, label)
+    for ci_, (K, size, share, base) in enumerate(chains):
+        inc = [float(base) ** k for k in range(K)]
+        for order, scales in (('increasing', inc), ('reversed', inc[::-1]), ('shuffled', [inc[i] for i in rs.permutation(K)])):
+            monotone = scales == sorted(scales) or scales == sorted(scales, reverse=True)
+            prop_cases.append((dict(seed=ci_, kind='chain', K=K, size=size, share=share, scales=scales),
+                               'chain,monotone-scales' if monotone else 'chain,non-monotone-scales'))
     made = 0
     while made < (16 if thorough else 6):
         n = int(rs.choice([5, 6]))
@@ -1363,10 +1502,8 @@ def tier_c(run, thorough):
         if not _connected(spec):
             continue
         made += 1
-        scales = (10.0 ** rs.uniform(-2, 2, size=R)).round(4).tolist()
-        for method in RESCALE_METHODS:
-            bd.check(orc_rescale_prop, dict(seed=200 + made, kind='cover', n_cond=n, subs=subs, scales=scales, method=method),
-                     'condition-cover', function='_rescale')
+        prop_cases.append((dict(seed=200 + made, kind='cover', n_cond=n, subs=subs,
+                                scales=(10.0 ** rs.uniform(-2, 2, size=R)).round(4).tolist()), 'condition-cover'))
     made = 0
     while made < (16 if thorough else 6):
         n = int(rs.choice([4, 5]))
@@ -1376,10 +1513,41 @@ def tier_c(run, thorough):
         if not _connected(_with_nan(np.ones((R, Pn)), rows)):
             continue
         made += 1
-        scales = (10.0 ** rs.uniform(-2, 2, size=R)).round(4).tolist()
+        prop_cases.append((dict(seed=300 + made, kind='entries', n_cond=n, rows=rows,
+                                scales=(10.0 ** rs.uniform(-2, 2, size=R)).round(4).tolist()), 'entry-masks'))
+
+    def for_method(base_case, label, method):
+        """'evidence' weights are the squared RAW dissimilarities: information passes through a low-scale RDM at a rate
+        ~ (scale ratio)^-2, so widely different scales that are not monotone along the chain need > 1e5 iterations.  Those
+        inputs are kept out of the small-threshold domain (run time) and are examined at the default threshold below."""
+        c = dict(base_case, method=method)
+        if method == 'evidence' and base_case['kind'] != 'chain':
+            c['scales'] = [round(float(x) ** 0.25, 4) for x in base_case['scales']]      # ratio <= 10
+        return c
+
+    bd = Bounded(run, 'C13/rescale-proportional', 'C13/rescale/oracle/proportional-to-common-scale',
+                 'mutually proportional partial RDMs: chains of K=2..%d partial RDMs (3-6 conditions each, 2-3 shared with the next) '
+                 'with scale ratio 3..1000 per link in increasing, reversed and shuffled order (evidence: monotone orders only); '
+                 'seeded condition covers and arbitrary entry masks (n_cond 4-6, 2-4 RDMs, connected, scale ratios up to 1e4, '
+                 'evidence up to 10); 3 methods; threshold 1e-20, agreement 1e-6' % (8 if thorough else 6), function='rescale')
+    for base_case, label in prop_cases:
         for method in RESCALE_METHODS:
-            bd.check(orc_rescale_prop, dict(seed=300 + made, kind='entries', n_cond=n, rows=rows, scales=scales, method=method),
-                     'entry-masks', function='_rescale')
+            if method == 'evidence' and label == 'chain,non-monotone-scales':
+                continue
+            bd.check(orc_rescale_prop, dict(for_method(base_case, label, method), threshold=1e-20, tol=1e-6), label, function='_rescale')
+    bd.done()
+    bds.append(bd)
+
+    bd = Bounded(run, 'C13/rescale-default-threshold', 'C13/rescale/oracle/proportional-default-threshold-within-25pct',
+                 'same proportional stacks (all three chain orders for all methods) with the DEFAULT threshold: the default stopping '
+                 'rule only promises approximate convergence, so only gross misalignment is flagged: shared entries of two rescaled '
+                 'RDMs, and constant x true scale, must agree within 25 %', function='rescale')
+    for base_case, label in prop_cases:
+        for method in RESCALE_METHODS:
+            lab = label
+            if method == 'evidence' and label == 'chain,non-monotone-scales':
+                lab = 'evidence,chain,non-monotone-scales'
+            bd.check(orc_rescale_prop, dict(for_method(base_case, label, method), threshold=None, tol=0.25), lab, function='_rescale')
     bd.done()
     bds.append(bd)
     return bds
